@@ -596,8 +596,11 @@ impl DBM {
         proof: &MisbehaviorProof,
     ) -> Result<(), SqliteError> {
         let tx = self.get_mut_connection().transaction().unwrap();
+        // The tower may have accepted this same appointment properly before (e.g. it is being sent again after a restart, or
+        // because lightningd notified the revocation twice). The receipt that proves the misbehavior takes the place of that
+        // one: the proof must not be lost. If the tower has a proof already, the second statement fails and nothing changes.
         tx.execute(
-            "INSERT INTO appointment_receipts (tower_id, locator, start_block, user_signature, tower_signature) 
+            "INSERT OR REPLACE INTO appointment_receipts (tower_id, locator, start_block, user_signature, tower_signature) 
                 VALUES (?1, ?2, ?3, ?4, ?5)",
             params![
                 tower_id.to_vec(),
